@@ -288,15 +288,18 @@ impl Table {
         file: &dyn ReadonlyRandomAccessFile,
         metaindex_block: &MetaIndexBlockReader,
     ) -> TableReadResult<Option<FilterBlockReader>> {
-        let filter_block_name = filter_policy::get_filter_block_name(options.filter_policy());
+        let filter_block_key =
+            MetaIndexKey::new(filter_policy::get_filter_block_name(options.filter_policy()));
         let mut metaindex_block_iter = metaindex_block.iter();
         // Seek to the filter meta block
-        if let Err(error) = metaindex_block_iter.seek(&MetaIndexKey::new(filter_block_name)) {
+        if let Err(error) = metaindex_block_iter.seek(&filter_block_key) {
             return Err(ReadError::FilterBlock(format!("{}", error)));
         }
 
         match metaindex_block_iter.current() {
-            Some((_key, raw_contents)) => {
+            // The seek stops at the first entry at or after the target. Only use a filter block
+            // that was written by a policy with the same name as the configured one.
+            Some((key, raw_contents)) if *key == filter_block_key => {
                 let filter_block_handle = BlockHandle::try_from(raw_contents)?;
                 let raw_filter_block = Table::read_block_from_disk(file, &filter_block_handle)?;
 
@@ -305,7 +308,7 @@ impl Table {
                     Ok(reader) => Ok(Some(reader)),
                 }
             }
-            None => Ok(None),
+            _ => Ok(None),
         }
     }
 
